@@ -1,7 +1,7 @@
 # Table of claims; exec'd by mkmanifest.py.
 _PU = "Loops whose bound is a structural constant of the code (table size, operand width, register-group depth) are fully unwound with unwinding assertions on - complete, no input excluded; all other loops carry loop contracts (invariant + decreases)."
 claim("C01", "proof",
-      "Memory safety, absence of undefined arithmetic and termination are the standard CBMC obligations (bounds, pointer, pointer-overflow, signed overflow, shift, div-by-zero, ctype-argument precondition, assigns frames, loop decreases) inside every contract job: each function on the input path is proved safe for ALL states satisfying its precondition and to establish its callees' preconditions, so by induction over the call graph the property holds for every byte stream, chunking and buffer/queue size. " + _PU + " Quick tier: the jobs around the input path; thorough: every job. SCPI_Parse/SCPI_Input as a whole are covered by a bounded whole-library job only (their loop-contract jobs exceed the memory of this machine).",
+      "Memory safety, absence of undefined arithmetic and termination are the standard CBMC obligations (bounds, pointer, pointer-overflow, signed overflow, shift, div-by-zero, ctype-argument precondition, assigns frames, loop decreases) inside every contract job: each function on the input path is proved safe for ALL states satisfying its precondition and to establish its callees' preconditions, so by induction over the call graph the property holds for every byte stream, chunking and buffer/queue size. " + _PU + " Quick tier: the jobs around the input path; thorough: every job. SCPI_Input as a whole is proved against SCPI_Parse's contract (loop contract with decreases); SCPI_Parse's own loop-contract job exceeds the memory of this machine, its unit loop is covered by the bounded whole-library jobs.",
       "DESIGN.md C01", "CBMC function + loop contracts (DFCC), standard safety checks per function")
 claim("C02", "proof",
       "Path composition (composeCompoundCommand: prefix = previous header up to its last colon, written only into consumed bytes), first-match search over a symbolic table (findCommandHeader, loop contract) and exactly-once invocation with entry/effective header/program data (processCommand against a handler CONTRACT) are discharged as contracts; the unit loop as a whole is decided by a bounded whole-library job (messages of 1..2 units from a menu) and the matcher by the C03 jobs.",
@@ -13,7 +13,7 @@ claim("C04", "proof",
       "Token class -> base/signedness selection of every converter is a contract (P). The unit table and the special mnemonics are finite: every row x every letter case x 0..2 blanks is proved against a golden table (P/U). That a literal is converted as a whole is bounded (literals <= 5 bytes); correct rounding itself is libc's assumed contract.",
       "DESIGN.md C04", "CBMC contracts + full unwinding over the finite tables; assumed libc conversions")
 claim("C05", "proof",
-      "The parameter cursor (five cases), every typed reader's decision table, processCommand's -200/-108 accounting, the recognisers' result==bytes-consumed (items delivered whole) and unit-level rejection are postconditions discharged by CBMC for symbolic buffers up to 10^6 bytes. Two input shapes are listed known findings with bounded confirmation jobs.",
+      "The parameter cursor (five cases), every typed reader's decision table, processCommand's -200/-108 accounting, the recognisers' result==bytes-consumed (items delivered whole) and unit-level rejection (a unit accepted with a valid header ends right behind its data list or is marked malformed) are postconditions discharged by CBMC for symbolic buffers up to 10^6 bytes; SCPI_Input's return value rule is part of its contract. Two input shapes are listed known findings with bounded confirmation jobs.",
       "DESIGN.md C05", "CBMC function contracts (DFCC) with error-queue projection PUSHED_ONE / NO_PUSH")
 claim("C06", "proof",
       "Every SCPI_Result* function: ',' first iff the unit already has an item, payload, one more item (ghost write observer with a watched position). processCommand: unit separator rule; writeNewLine: terminator iff something responded. Whole messages: bounded whole-library job. The separator defects for handlers that do not behave as their header says are a listed known finding.",
@@ -22,13 +22,13 @@ claim("C07", "proof",
       "Round trips are lemmas over the real code: format (result API, captured output) -> real program-data recogniser -> real converter == original value. Unsigned 32/64-bit in bases 16/8/2: full domain (P/U). Decimal, text (<= 4 chars, both quotes), blocks (<= 3 bytes): bounded. Float digits: not applicable (C16); the float/double result buffers are proved large enough for every text the formatter can produce (no truncation).",
       "DESIGN.md C07", "CBMC lemma harnesses over the real encode/decode functions, full unwinding")
 claim("C08", "model_checking",
-      "Bounded whole-library self-composition: the same stream fed in one call and split at every point gives the same handler invocations, parameters, output, errors and remainder (messages of 1..2 units from a menu). Unit detection's progress/termination-kind contract is P. A newline inside a quoted string is a listed known finding. The SCPI_Input loop-contract job exists but exceeds this machine's memory.",
+      "Bounded whole-library self-composition: the same stream fed in one call and split at every point gives the same handler invocations, parameters, output, errors and remainder (messages of 1..3 units from a menu; every split point in the thorough tier, the split at the message boundary for every menu pair in the quick tier). SCPI_Input's buffer management (append, overrun guard, NUL, remainder moved to the front, termination) and unit detection's progress/termination-kind contract are P. A newline inside a quoted string is a listed known finding.",
       "DESIGN.md C08", "CBMC bounded self-composition of the real input path")
 claim("C09", "proof",
       "Per-unit isolation is a contract obligation: the handler contract REQUIRES cmd_error, input_count, output_count, arbitrary_remaining fresh and the cursor at the start of the unit's data, and CBMC asserts that at the call in processCommand for arbitrary entry values. Message-to-message isolation: bounded whole-library job (B after A == B on a fresh context).",
       "DESIGN.md C09", "handler-entry precondition asserted at the call site (DFCC) + bounded self-composition")
 claim("C10", "proof",
-      "Ring-buffer representation invariant and FIFO view for every fifo.c function with symbolic capacity up to 32767 (witness slot over the whole view); SCPI_ErrorPushEx/Pop/Clear/Count against those contracts: overflow marking, pop order, empty pop, count; every text released exactly once in Clear (loop contract). Ownership under the real malloc/free model is not yet decided (free/strndup enter as assumed observer contracts).",
+      "Ring-buffer representation invariant and FIFO view for every fifo.c function with symbolic capacity up to 32767 (witness slot over the whole view); SCPI_ErrorPushEx/Pop/Clear/Count against those contracts: overflow marking, pop order, empty pop, count; every text released exactly once in Clear (loop contract). Ownership under CBMC's malloc/free model (failing malloc, double free, use after free, leak checks on) is decided for bounded histories of push/pop/clear on the real queue (hist.malloc.*, labelled bounded).",
       "DESIGN.md C10", "CBMC function contracts with representation invariant and abstract view")
 claim("C11", "proof",
       "Status-byte coherence (ESB/OPS/QES/MSS equal their definitions; QMA iff queue non-empty) is an inductive invariant: every register-mutating API keeps it from an arbitrary coherent state with fully symbolic 16-bit registers, so it holds along every history. " + _PU,
@@ -37,13 +37,13 @@ claim("C12", "proof",
       "Error classification for all 65536 codes at once, condition->event latching, event-register frame and the SRQ edge rule are postconditions of SCPI_ErrorPushEx / SCPI_RegSet discharged for symbolic code, registers and value.",
       "DESIGN.md C12", "CBMC function contracts (DFCC) with ghost callback observer")
 claim("C13", "proof",
-      "Shape layer: all 15 token recognisers, their 13 helpers and the three program-data/unit recognisers under contracts with loop contracts, for buffers up to 10^6 bytes over all byte values: cursor in bounds, rollback on rejection, type/extent/length agree with what was consumed, result == displacement, first/last/next-byte facts, termination. Character-class content of whole tokens is enforced in the thorough tier only; bounded language equivalence against reference recognisers is not built.",
+      "Shape layer: all 15 token recognisers, their 13 helpers and the three program-data/unit recognisers under contracts with loop contracts, for buffers up to 10^6 bytes over all byte values: cursor in bounds, rollback on rejection, type/extent/length agree with what was consumed, result == displacement, first/last/next-byte facts, termination. Character-class content of whole tokens is enforced in the thorough tier only. Language layer (bounded): each recogniser equals a reference recogniser written from IEEE 488.2 section 7 for every string up to 8 (thorough 12) bytes at two offsets, and unit detection equals a reference for every input up to 5 (thorough 7) bytes.",
       "DESIGN.md C13", "CBMC function + loop contracts on the real recognisers")
 claim("C14", "proof",
       "UInt32/UInt64ToStrBaseSign and wrappers, full domain (value, base, sign flag, len 0..72 symbolic): length, truncation, NUL, nothing beyond the buffer, sign, digit range, no leading zero; value exactness for bases 2/8/16 by decoding. Loops are bounded by the operand width and fully unwound (complete). Base-10 value exactness: bounded (|v| < 10^6), stated as such.",
       "DESIGN.md C14", "CBMC full-domain harnesses, loops unwound to the operand width with unwinding assertions")
 claim("C15", "model_checking",
-      "Frames: integer formatters (P/U, full domain, canaries) and SCPI_ParamCopyText (P, loop contract) never write beyond the caller's buffer. Number-with-unit, float/double-to-string and the built-in formatter's non-finite path: bounded (buffer 0..24, canary directly behind the buffer in the same object, snprintf modelled).",
+      "Frames: integer formatters (P/U, full domain, canaries) and SCPI_ParamCopyText (P, loop contract) never write beyond the caller's buffer. SCPI_NumberToStr under contract (frame = the caller's len bytes, result < len, NUL; strncpy/strncat/strlen are CBMC's models, buffer 0..12 quick / 0..28 thorough). Float/double-to-string and the built-in formatter's non-finite path: bounded (buffer 0..24, canary directly behind the buffer in the same object, snprintf modelled).",
       "DESIGN.md C15", "CBMC frame contracts / canary harnesses")
 claim("C17", "proof",
       "Block header ('#', digit count, decimal byte count for every length < 10^9), remaining-length accounting and refusal (-310) are contracts (P). Element byte order and item accounting of binary arrays: bounded (0..3 elements, every element size, both formats) on a little-endian and a big-endian host model; byte-swap helpers: full-domain identities.",
@@ -55,7 +55,7 @@ claim("C19", "model_checking",
       "Bounded: the real list decoders over the real lexer equal a reference list parser written from the statement for every expression body up to 5 (thorough 7) bytes over the statement's alphabet, every index, every capacity; the lexer pieces they use are under contract (P).",
       "DESIGN.md C19", "CBMC bounded equivalence against a reference list parser")
 claim("C20", "proof",
-      "Static-heap build (-DUSE_MEMORY_ALLOCATION_FREE=0): scpiheap_strndup stores the text intact or refuses and changes nothing; nothing outside the allocated bytes changes; reads of the source stay inside its n bytes; heap sizes up to 100000 symbolic. scpiheap_free / get_parts and whole histories are not yet under contract.",
+      "Static-heap build (-DUSE_MEMORY_ALLOCATION_FREE=0): scpiheap_strndup stores the text intact or refuses and changes nothing; nothing outside the allocated bytes changes; reads of the source stay inside its n bytes; heap sizes up to 100000 symbolic. scpiheap_free / get_parts have no contract of their own: histories of push/pop/clear with an 8-byte heap between canaries (all sequences up to length 3 plus longer drain/refill sequences) decide full reuse, integrity of queued texts and containment (hist.heap.*, labelled bounded).",
       "DESIGN.md C20", "CBMC function contracts with frame and witness-byte integrity clauses")
 na("C16", "floating-point digit exactness of snprintf/modf-based formatting is outside what CBMC contracts decide (bit-precise product of 16+ IEEE-754 steps; libc is external); buffer safety of those functions is under C15, result-buffer sizing under C07")
 LEVEL_OVERRIDE = {"C03": "model_checking", "C08": "model_checking", "C15": "model_checking", "C18": "model_checking", "C19": "model_checking"}
